@@ -79,6 +79,16 @@ func absParam(p spec.Parameter) obj {
 	if p.CollectionFormat != "" {
 		o["collectionFormat"] = p.CollectionFormat
 	}
+	if len(p.Enum) > 0 {
+		l := []any{}
+		for _, v := range p.Enum {
+			l = append(l, fmt.Sprint(v))
+		}
+		o["enum"] = l
+	}
+	if p.Default != nil {
+		o["default"] = fmt.Sprint(p.Default)
+	}
 	if p.Items != nil {
 		o["itemsType"] = p.Items.Type
 		if p.Items.MinLength != nil {
